@@ -122,6 +122,45 @@ pub proof fn lemma_docs_w_push(s: Seq<DocV>, d: DocV)
     if docs_wst(t) { assert forall|i: int| 0 <= i < s.len() implies wst(#[trigger] s[i]) by { assert(t[i] == s[i]); } assert(t[s.len() as int] == d); }
     if docs_wst(s) && wst(d) { assert forall|i: int| 0 <= i < t.len() implies wst(#[trigger] t[i]) by { if i < s.len() { assert(t[i] == s[i]); } } }
 }
+/// the last accumulated document gets something appended
+pub proof fn lemma_docs_w_append_last(s: Seq<DocV>, x: DocV)
+    requires s.len() > 0,
+    ensures docs_w(s.update(s.len() - 1, cat(s.last(), x))) =~= docs_w(s) + wd(x),
+        docs_wst(s) && wst(x) ==> docs_wst(s.update(s.len() - 1, cat(s.last(), x))),
+{
+    reveal_with_fuel(docs_w, 2); reveal(docs_wst); reveal_with_fuel(words, 2); reveal_with_fuel(alt_ok, 2);
+    let t = s.update(s.len() - 1, cat(s.last(), x));
+    assert(t.drop_last() =~= s.drop_last());
+    assert(wd(t.last()) =~= wd(s.last()) + wd(x));
+    if docs_wst(s) && wst(x) { assert forall|i: int| 0 <= i < t.len() implies wst(#[trigger] t[i]) by { if i < s.len() - 1 { assert(t[i] == s[i]); } else { assert(wst(s[s.len() - 1])); } } }
+}
+/// the concatenation of the accumulated documents carries their words in order
+pub proof fn lemma_docs_w_cat_all(s: Seq<DocV>)
+    ensures wd(cat_all(s)) =~= docs_w(s), docs_wst(s) ==> wst(cat_all(s)),
+    decreases s.len(),
+{
+    reveal_with_fuel(docs_w, 2); reveal(docs_wst); reveal_with_fuel(words, 2); reveal_with_fuel(alt_ok, 2); reveal_with_fuel(cat_all, 2);
+    if s.len() > 0 {
+        lemma_docs_w_cat_all(s.drop_last());
+        if docs_wst(s) { assert forall|i: int| 0 <= i < s.drop_last().len() implies wst(#[trigger] s.drop_last()[i]) by { assert(s.drop_last()[i] == s[i]); } assert(wst(s[s.len() - 1])); }
+    }
+}
+pub proof fn lemma_docs_w_first_rest(s: Seq<DocV>)
+    requires s.len() > 0,
+    ensures docs_w(s) =~= wd(s[0]) + docs_w(s.subrange(1, s.len() as int)), docs_wst(s) ==> wst(s[0]) && docs_wst(s.subrange(1, s.len() as int)),
+    decreases s.len(),
+{
+    reveal_with_fuel(docs_w, 2); reveal(docs_wst);
+    let t = s.subrange(1, s.len() as int);
+    if s.len() == 1 { assert(s.drop_last() =~= Seq::<DocV>::empty()); assert(t =~= Seq::<DocV>::empty()); }
+    else {
+        lemma_docs_w_first_rest(s.drop_last());
+        assert(s.drop_last().subrange(1, s.len() - 1) =~= t.drop_last());
+        assert(t.last() == s.last());
+        assert(s.drop_last()[0] == s[0]);
+    }
+    if docs_wst(s) { assert forall|i: int| 0 <= i < t.len() implies wst(#[trigger] t[i]) by { assert(t[i] == s[i + 1]); } assert(wst(s[0])); }
+}
 /// dropping a trailing line-break item changes nothing
 pub proof fn lemma_items_w_drop_linebreak(s: Seq<ItemV>)
     requires s.len() > 0, s.last() is Linebreak,
